@@ -98,6 +98,7 @@ inductive Event
   | resolved (seq : Nat) (acked : Bool)
   | dropped
   | clientDisconnectCb
+  | promoted                          -- server: `ctxt._onConnect(self)` was called for this connection
   deriving DecidableEq, Repr
 
 structure Conn where
@@ -132,6 +133,11 @@ structure Conn where
   received : Nat := 0
   acked : Nat := 0
   timeouts : Nat := 0
+  -- ClientServerConnection / ServerClientConnection
+  token : Nat := 0
+  helloSentAt : Int := 0             -- `time_client_hello_sent` (0 = not waiting for a server hello)
+  hasConnectCb : Bool := false       -- `connection_callback is not None`
+  pinned : Option Bytes := none      -- `server_public_key` (DER) configured on the client
   deriving Repr
 
 /-- `seq += 1` on a `SeqNum` counter (values stay in 0..65535, so the constructor never raises) -/
